@@ -1,6 +1,6 @@
 // C17 implementation driver: path post-processing routines of /repo on planned paths, with logging collaborators.
 //   SIMP <space> <env> <seed> <resolution> <mode> <routine> [params...]
-//     mode: plain | dense (interpolated input) | dup (repeated states / zero-length segments inserted)
+//     mode: plain | dense (interpolated input) | dup (repeated states / zero-length segments inserted) | point (2..5 copies of one state)
 //     routine: reduce <maxSteps> <maxEmpty> <rangeRatio> | partial <maxSteps> <maxEmpty> <rangeRatio> <snap>
 //              | rope <delta> <eqtol> | collapse <maxSteps> <maxEmpty> | bspline <maxSteps> <minChange>
 //              | perturb <stepSize> <maxSteps> <maxEmpty> <snap> | bettergoal <seconds> <attempts> <rangeRatio> <snap>
@@ -61,6 +61,10 @@ int main(int argc, char **argv)
                 std::vector<std::pair<double, double>> pts = {{x0, 0.9}, {x0, 0.5 + 0.2 * u(g)}, {x0, ylow}, {(x0 + x1) / 2, ylow}, {x1, ylow}, {x1, 0.6}, {x1, 0.9}};
                 ob::State *t = w.space->allocState(); for (auto &p : pts) { set_pos(w, t, p.first, p.second, 0.0); path->append(t); if (seed % 3 == 0) path->append(t); } w.space->freeState(t);
                 set_pos(w, g0, x1, 0.9, 0.0); pdef->setGoalState(g0, 0.05);
+            }
+            else if (mode == "point")
+            {   // a path that never leaves one state (start = goal): 2..5 copies, total length 0
+                path = std::make_shared<og::PathGeometric>(w.si); for (unsigned i = 0; i < 2 + seed % 4; ++i) path->append(s0);
             }
             else path = plan(seed);
             if (!path) { std::cout << "SKIP no input path\nEND" << std::endl; return; }
